@@ -17,7 +17,7 @@ import vlib
 
 REP = {"ident": "ab", "dash": "a-b", "dot": "a.b", "dotdigit": "a.1", "digitstart": "1a", "unicode": "é字", "astral": "😀x",
        "space": "a b", "squote": "a'b", "dquote": 'a"b', "backslash": "a\\b", "newline": "a\nb", "cr": "a\rb", "ls": "a b",
-       "nul": "a\0b", "nuldigit": "a\x001", "hash": "a#b", "lt": "a<b",
+       "nul": "a\0b", "nuldigit": "a\x001", "nuldigit0": "a\x000", "nuldigit9": "a\x009z\x008", "hash": "a#b", "lt": "a<b",
        "reserved2": "if", "reserved3": "for", "reserved-long": "class", "proto": "__proto__",
        "plain-body": "exports.a = 1;", "line-comment-end": "exports.a = 1 // c", "no-semicolon": "exports.a = 1",
        "closing-tag-like": "var s = '</v>';", "template-literal": "var t = `a${1}b`;", "regex-star": "var r = /a*/; /* c */",
